@@ -80,6 +80,7 @@ def connect_randomly(
     entity of *dest_set* may receive. This argument is only taken into account
     if *evenly* is set to ``False``.
     """
+    src_set = list(src_set)
     dest_set = list(dest_set)
     assert dest_set
 
